@@ -2,25 +2,29 @@
 @file
 Instrumentation points for external verification harnesses.
 
-Without IGRIS_VERIF the macros expand to nothing. With IGRIS_VERIF defined the
-harness has to supply
+Without IGRIS_VERIF the macros expand to nothing. With IGRIS_VERIF defined a
+harness may supply
 
     extern "C" void igris_verif_point(const char *name, const void *obj);
 
-which is called at every synchronisation point (`name` identifies the point,
-`obj` the synchronisation object about to be used, or NULL).
+which is then called at every synchronisation point (`name` identifies the
+point, `obj` the synchronisation object about to be used, or NULL). The symbol
+is weak: a program that does not define it runs the points as no-ops.
 */
 #ifndef IGRIS_UTIL_VERIF_POINT_H
 #define IGRIS_UTIL_VERIF_POINT_H
 
 #ifdef IGRIS_VERIF
 #ifdef __cplusplus
-extern "C" void igris_verif_point(const char *name, const void *obj);
+extern "C" void igris_verif_point(const char *name, const void *obj)
+    __attribute__((weak));
 #else
-void igris_verif_point(const char *name, const void *obj);
+void igris_verif_point(const char *name, const void *obj)
+    __attribute__((weak));
 #endif
-#define IGRIS_VERIF_POINT(name) igris_verif_point((name), 0)
-#define IGRIS_VERIF_POINT_OBJ(name, obj) igris_verif_point((name), (obj))
+#define IGRIS_VERIF_POINT_OBJ(name, obj)                                       \
+    (igris_verif_point ? igris_verif_point((name), (obj)) : (void)0)
+#define IGRIS_VERIF_POINT(name) IGRIS_VERIF_POINT_OBJ(name, 0)
 #else
 #define IGRIS_VERIF_POINT(name) ((void)0)
 #define IGRIS_VERIF_POINT_OBJ(name, obj) ((void)0)
